@@ -934,7 +934,42 @@ pub fn reset() {
 enum InnerSpec {
   Cold(model::Script),
   Hot,
+  /// a Subject as inner observable (it consults its subscriber's is_finished/is_closed)
+  HotSubj,
 }
+impl InnerSpec {
+  fn is_hot(&self) -> bool {
+    !matches!(self, InnerSpec::Cold(_))
+  }
+}
+
+/// a Subject inner that counts its subscription like the other inners do
+#[derive(Clone)]
+struct EnterSubj<S>(usize, S);
+fn enter_inner(k: usize) {
+  world::bump(100 + k);
+  let live = world::bump(0);
+  let lim = world::counter(1);
+  if live > lim {
+    e::fail("flatten/concurrency-limit-exceeded", || format!("{} inner observables subscribed at once, limit {}", live, lim));
+  }
+}
+impl<O: Observer<Val, Val> + 'static> Observable<Val, Val, O> for EnterSubj<Subject<'static, Val, Val>> {
+  type Unsub = Subscriber<O>;
+  fn actual_subscribe(self, observer: O) -> Self::Unsub {
+    enter_inner(self.0);
+    self.1.actual_subscribe(observer)
+  }
+}
+impl ObservableExt<Val, Val> for EnterSubj<Subject<'static, Val, Val>> {}
+impl<O: Observer<Val, Val> + Send + 'static> Observable<Val, Val, O> for EnterSubj<SubjectThreads<Val, Val>> {
+  type Unsub = SubscriberThreads<O>;
+  fn actual_subscribe(self, observer: O) -> Self::Unsub {
+    enter_inner(self.0);
+    self.1.actual_subscribe(observer)
+  }
+}
+impl ObservableExt<Val, Val> for EnterSubj<SubjectThreads<Val, Val>> {}
 
 #[derive(Clone, Copy, PartialEq, Debug)]
 enum FlatOp {
@@ -981,6 +1016,16 @@ fn inner_obs(k: usize, spec: &InnerSpec) -> Obs {
       cat::HANDLES.with(|hs| hs.borrow_mut().push((200 + k, h)))
     })
     .box_it(),
+    InnerSpec::HotSubj => {
+      // one Subject per inner index, however often the observable value is built
+      let old = cat::SUBJECTS.with(|h| h.borrow().iter().find(|(t, _)| *t == 200 + k).map(|(_, s)| s.clone()));
+      let sj = old.unwrap_or_else(|| {
+        let sj: Subject<'static, Val, Val> = Subject::default();
+        cat::SUBJECTS.with(|h| h.borrow_mut().push((200 + k, sj.clone())));
+        sj
+      });
+      EnterSubj(k, sj).box_it()
+    }
   }
 }
 
@@ -1018,6 +1063,80 @@ fn inner_obs_t(k: usize, spec: &InnerSpec) -> ObsT {
       cat::HANDLES_T.with(|hs| hs.borrow_mut().push((200 + k, h)))
     })
     .box_it(),
+    InnerSpec::HotSubj => {
+      let old = cat::SUBJECTS_T.with(|h| h.borrow().iter().find(|(t, _)| *t == 200 + k).map(|(_, s)| s.clone()));
+      let sj = old.unwrap_or_else(|| {
+        let sj: SubjectThreads<Val, Val> = SubjectThreads::default();
+        cat::SUBJECTS_T.with(|h| h.borrow_mut().push((200 + k, sj.clone())));
+        sj
+      });
+      EnterSubj(k, sj).box_it()
+    }
+  }
+}
+
+/// C05 with the flattened stream multicast through a Subject (what share()/publish() do), Subject inners and a
+/// synchronous from_iter outer: everything upstream that consults is_finished()/is_closed() now asks a Subject.
+pub(crate) fn c05_multicast(nsteps: usize, ninner: usize, threads_form: bool) {
+  let op = match e::choose(5) {
+    0 => FlatOp::MergeAll(1 + e::choose(ninner as u32 + 1) as usize),
+    1 => FlatOp::ConcatAll,
+    2 => FlatOp::Flatten,
+    3 => FlatOp::FlatMap,
+    _ => FlatOp::ConcatMap,
+  };
+  let limit: usize = match op {
+    FlatOp::MergeAll(n) => n,
+    FlatOp::ConcatAll | FlatOp::ConcatMap => 1,
+    _ => usize::MAX,
+  };
+  world::set_counter(1, if limit == usize::MAX { i64::MAX } else { limit as i64 });
+  let sync_outer = e::choose_bool();
+  let relay = e::choose_bool();
+  let specs: Vec<InnerSpec> = (0..ninner)
+    .map(|_| match e::choose(3) { 0 => InnerSpec::Hot, 1 => InnerSpec::HotSubj, _ => InnerSpec::Cold(draw_script(2, false)) })
+    .collect();
+  e::note(format!("{:?}{}{}{} inners [{}]", op, if threads_form { " (threads)" } else { "" }, if sync_outer { " from_iter outer" } else { "" }, if relay { " multicast through a Subject" } else { "" }, specs.iter().map(|s| match s { InnerSpec::Hot => "hot".to_string(), InnerSpec::HotSubj => "subject".to_string(), InnerSpec::Cold(s) => format!("cold[{}]", s.show()) }).collect::<Vec<_>>().join(", ")));
+  let probe = fresh_probe();
+  let cfg = format!("{}{}{}", format!("{:?}", op).chars().filter(|c| c.is_ascii_alphabetic()).collect::<String>(), if sync_outer { "/sync" } else { "" }, if relay { "/relay" } else { "" });
+  e::cfg_begin(&cfg);
+  let via_map = matches!(op, FlatOp::FlatMap | FlatOp::ConcatMap);
+  if !threads_form {
+    let inners: Vec<Obs> = specs.iter().enumerate().map(|(k, s)| inner_obs(k, s)).collect();
+    let flat: rxrust::ops::box_it::BoxOp<'static, Val, Val> = if via_map {
+      let src: Obs = if sync_outer { observable::from_iter((0..ninner).map(|k| Val::c(k as i64)).collect::<Vec<_>>()).on_error_map(|_: std::convert::Infallible| Val::c(0)).box_it() } else { cat::hot_tagged(0) };
+      let f = move |v: Val| inners[v.sym().konst().unwrap() as usize].clone();
+      if op == FlatOp::FlatMap { src.flat_map(f).box_it() } else { src.concat_map(f).box_it() }
+    } else {
+      let src: rxrust::ops::box_it::BoxOp<'static, Obs, Val> = if sync_outer { observable::from_iter(inners).on_error_map(|_: std::convert::Infallible| Val::c(0)).box_it() } else { observable::create(|s: OuterHandle| OUTER.with(|o| *o.borrow_mut() = Some(s))).box_it() };
+      match op {
+        FlatOp::MergeAll(n) => src.merge_all(n).box_it(),
+        FlatOp::ConcatAll => src.concat_all().box_it(),
+        _ => src.flatten().box_it(),
+      }
+    };
+    let flat: rxrust::ops::box_it::BoxOp<'static, Val, Val> = if relay { cat::RelayG(flat).box_it() } else { flat };
+    let u = flat.actual_subscribe(probe);
+    drive_c05_x(op, &specs, nsteps, limit, probe, false, |k| inner_obs(k, &specs[k]), |_k| unreachable!(), None, None, sync_outer, &cfg);
+    std::mem::forget(u);
+  } else {
+    let inners: Vec<ObsT> = specs.iter().enumerate().map(|(k, s)| inner_obs_t(k, s)).collect();
+    let flat: rxrust::ops::box_it::BoxOpThreads<Val, Val> = if via_map {
+      let src: ObsT = if sync_outer { observable::from_iter((0..ninner).map(|k| Val::c(k as i64)).collect::<Vec<_>>()).on_error_map(|_: std::convert::Infallible| Val::c(0)).box_it() } else { cat::hot_tagged_t(0) };
+      let f = move |v: Val| inners[v.sym().konst().unwrap() as usize].clone();
+      if op == FlatOp::FlatMap { src.flat_map_threads(f).box_it() } else { src.concat_map_threads(f).box_it() }
+    } else {
+      let src: rxrust::ops::box_it::BoxOpThreads<ObsT, Val> = if sync_outer { observable::from_iter(inners).on_error_map(|_: std::convert::Infallible| Val::c(0)).box_it() } else { observable::create(|s: OuterHandleT| OUTER_T.with(|o| *o.borrow_mut() = Some(s))).box_it() };
+      match op {
+        FlatOp::MergeAll(n) => src.merge_all_threads(n).box_it(),
+        FlatOp::ConcatAll => src.concat_all_threads().box_it(),
+        _ => src.flatten_threads().box_it(),
+      }
+    };
+    let flat: rxrust::ops::box_it::BoxOpThreads<Val, Val> = if relay { cat::RelayGT(flat).box_it() } else { flat };
+    let u = flat.actual_subscribe(probe);
+    drive_c05_x(op, &specs, nsteps, limit, probe, true, |_k| unreachable!(), |k| inner_obs_t(k, &specs[k]), None, None, sync_outer, &cfg);
+    std::mem::forget(u);
   }
 }
 
@@ -1042,7 +1161,7 @@ pub(crate) fn c05_flatten_x(nsteps: usize, ninner: usize, threads_form: bool, cu
   let specs: Vec<InnerSpec> = (0..ninner)
     .map(|_| if e::choose_bool() { InnerSpec::Hot } else { InnerSpec::Cold(draw_script(2, false)) })
     .collect();
-  e::note(format!("{:?}{} inners [{}]", op, if threads_form { " (threads)" } else { "" }, specs.iter().map(|s| match s { InnerSpec::Hot => "hot".to_string(), InnerSpec::Cold(s) => format!("cold[{}]", s.show()) }).collect::<Vec<_>>().join(", ")));
+  e::note(format!("{:?}{} inners [{}]", op, if threads_form { " (threads)" } else { "" }, specs.iter().map(|s| match s { InnerSpec::Hot => "hot".to_string(), InnerSpec::HotSubj => "subject".to_string(), InnerSpec::Cold(s) => format!("cold[{}]", s.show()) }).collect::<Vec<_>>().join(", ")));
   let probe = fresh_probe();
   e::cfg_begin(&format!("{:?}", op).chars().filter(|c| c.is_ascii_alphabetic()).collect::<String>());
   let mut unsub: Option<Box<dyn FnOnce()>> = None;
@@ -1108,7 +1227,12 @@ pub(crate) fn c05_flatten_x(nsteps: usize, ninner: usize, threads_form: bool, cu
 }
 
 /// Drives outer and inner events and mirrors them in the queue model.
-fn drive_c05(op: FlatOp, specs: &[InnerSpec], nsteps: usize, limit: usize, probe: Probe, threads_form: bool, mk: impl Fn(usize) -> Obs, mk_t: impl Fn(usize) -> ObsT, mut cut: Option<Box<dyn FnOnce()>>, closed_q: Option<Box<dyn Fn() -> bool>>) {
+fn drive_c05(op: FlatOp, specs: &[InnerSpec], nsteps: usize, limit: usize, probe: Probe, threads_form: bool, mk: impl Fn(usize) -> Obs, mk_t: impl Fn(usize) -> ObsT, cut: Option<Box<dyn FnOnce()>>, closed_q: Option<Box<dyn Fn() -> bool>>) {
+  let cfg = format!("{:?}", op).chars().filter(|c| c.is_ascii_alphabetic()).collect::<String>();
+  drive_c05_x(op, specs, nsteps, limit, probe, threads_form, mk, mk_t, cut, closed_q, false, &cfg)
+}
+
+fn drive_c05_x(op: FlatOp, specs: &[InnerSpec], nsteps: usize, limit: usize, probe: Probe, threads_form: bool, mk: impl Fn(usize) -> Obs, mk_t: impl Fn(usize) -> ObsT, mut cut: Option<Box<dyn FnOnce()>>, closed_q: Option<Box<dyn Fn() -> bool>>, sync_outer: bool, cfg: &str) {
   let cutting = cut.is_some();
   let cut_step = if cutting { e::choose(nsteps as u32) as usize } else { usize::MAX };
   let via_map = matches!(op, FlatOp::FlatMap | FlatOp::ConcatMap);
@@ -1123,7 +1247,7 @@ fn drive_c05(op: FlatOp, specs: &[InnerSpec], nsteps: usize, limit: usize, probe
   // start an inner in the model; returns false if output terminated
   fn start(k: usize, specs: &[InnerSpec], want: &mut Vec<Ev>, active: &mut Vec<usize>, out_done: &mut bool) {
     match &specs[k] {
-      InnerSpec::Hot => active.push(k),
+      InnerSpec::Hot | InnerSpec::HotSubj => active.push(k),
       InnerSpec::Cold(s) => {
         for v in &s.items {
           want.push(Ev::Next(v.clone()));
@@ -1137,6 +1261,24 @@ fn drive_c05(op: FlatOp, specs: &[InnerSpec], nsteps: usize, limit: usize, probe
           active.push(k);
         }
       }
+    }
+  }
+  if sync_outer {
+    // the from_iter outer handed out every inner and completed during subscribe()
+    for k in 0..specs.len() {
+      if !out_done {
+        if active.len() < limit {
+          start(k, specs, &mut want, &mut active, &mut out_done);
+        } else {
+          queue.push_back(k);
+        }
+      }
+    }
+    emitted = specs.len();
+    outer_done = true;
+    if !out_done && active.is_empty() && queue.is_empty() {
+      want.push(Ev::Complete);
+      out_done = true;
     }
   }
   'steps: for step in 0..nsteps {
@@ -1160,7 +1302,7 @@ fn drive_c05(op: FlatOp, specs: &[InnerSpec], nsteps: usize, limit: usize, probe
       }
     }
     // choices: 0 outer emits next inner, 1 outer completes, 2 outer errors, 3.. event on a subscribed hot inner
-    let hot_live: Vec<usize> = active.iter().cloned().filter(|k| matches!(specs[*k], InnerSpec::Hot) && !hot_done[*k]).collect();
+    let hot_live: Vec<usize> = active.iter().cloned().filter(|k| specs[*k].is_hot() && !hot_done[*k]).collect();
     let c = e::choose(3 + hot_live.len() as u32 * 3);
     if c == 0 {
       if emitted >= specs.len() || outer_done {
@@ -1277,15 +1419,13 @@ fn drive_c05(op: FlatOp, specs: &[InnerSpec], nsteps: usize, limit: usize, probe
         world::set_counter(0, live - 1);
       }
       if threads_form {
-        if let Some(mut h) = cat::handle_t_nth(200 + k, 0) {
-          feed_t(&mut h, &ev);
-        }
-      } else if let Some(mut h) = cat::handle_nth(200 + k, 0) {
-        feed(&mut h, &ev);
+        cat::feed_hot_t(200 + k, &ev);
+      } else {
+        cat::feed_hot(200 + k, &ev);
       }
     }
   }
-  e::cfg_end(&format!("{:?}", op).chars().filter(|c| c.is_ascii_alphabetic()).collect::<String>());
+  e::cfg_end(cfg);
   if cutting {
     e::cover("c02-flatten-path-complete");
     return;
@@ -1341,6 +1481,11 @@ pub fn harnesses() -> Vec<HarnessDef> {
   add("c05_flatten", vec!["C05", "C01"], "flattening operators vs the queue model; live inner subscriptions counted against the limit; a RefCell double borrow is a caught panic", b5, Box::new(|t| c05_flatten(if t { 7 } else { 6 }, 3, false)), 3_000_000, 40_000_000, true);
   add("c02_flatten", vec!["C02", "C17"], "flattening operators: unsubscribe() at every step; afterwards no inner (running, queued-then-started, hot or periodic) may deliver", b5, Box::new(|t| c05_flatten_x(if t { 7 } else { 5 }, 3, false, true)), 3_000_000, 40_000_000, true);
   add("c02_flatten_threads", vec!["C02", "C17"], "same for the _threads forms", b5, Box::new(|t| c05_flatten_x(if t { 7 } else { 5 }, 3, true, true)), 3_000_000, 40_000_000, true);
+  fn b5m(t: bool) -> String {
+    format!("3 inner observables, each a create-handle, a Subject or cold (<=2 items); outer a create-handle or from_iter; output direct or multicast through a Subject; {} steps", if t { 7 } else { 5 })
+  }
+  add("c05_multicast", vec!["C05"], "flattening operators whose output is multicast through a Subject, with Subject inners and a synchronous outer, vs the queue model", b5m, Box::new(|t| c05_multicast(if t { 7 } else { 5 }, 3, false)), 3_000_000, 40_000_000, true);
+  add("c05_multicast_threads", vec!["C05"], "same for the _threads forms", b5m, Box::new(|t| c05_multicast(if t { 7 } else { 5 }, 3, true)), 3_000_000, 40_000_000, true);
   add("c05_flatten_threads", vec!["C05"], "the _threads forms; re-acquisition of a held MutArc lock = would block forever", b5, Box::new(|t| c05_flatten(if t { 7 } else { 6 }, 3, true)), 3_000_000, 40_000_000, true);
   v
 }
